@@ -140,7 +140,7 @@ def o1(run, project):
         run.ob("O1", norm(fi._parent.test) == f"not hasattr({cls}, '__int__')", "__int__ fallback guard",
                f"guard is `{norm(fi._parent.test)}`", module=mod, node=fi._parent, func="numeric", construct="__int__ guard")
     # numeric returns the class, and _INT / AlgValue are decorated with it
-    rets = [s for s in num.body if isinstance(s, ast.Return)]
+    rets = [s for s in num.body if isinstance(s, ast.Return)]  # top level of the decorator only (nested defs have their own returns)
     run.ob("O1", len(rets) == 1 and norm(rets[0].value) == cls, "numeric returns the decorated class", "numeric() does not return cls",
            module=mod, node=num, func="numeric", construct="numeric return")
     for mname, cname in ((BASE, "_INT"), ("tpmstream.spec.structures.constants", "AlgValue")):
@@ -242,12 +242,12 @@ def o4(run, project):
     # _INT text form delegates to the wrapped value
     base = project.module(BASE)
     st = base.functions().get("_INT.__str__")
-    ok = st is not None and [norm(s) for s in st.body if isinstance(s, ast.Return)] == ["return str(self._value)"]
+    ok = st is not None and [norm(s) for s in walk_no_nested(st) if isinstance(s, ast.Return)] == ["return str(self._value)"]
     run.ob("O4", ok, "_INT text form is the wrapped value's", "_INT.__str__ no longer returns str(self._value)", module=base,
            node=st or base.tree, func="_INT.__str__", construct="_INT.__str__")
     from .c04 import v4  # NamedRange.__contains__ half-open is part of V4, reported under O4 as well
     nc = mod.functions().get("NamedRange.__contains__")
-    rets = [s for s in nc.body if isinstance(s, ast.Return)]
+    rets = [s for s in walk_no_nested(nc) if isinstance(s, ast.Return)]
     it = nc.args.args[1].arg
     ok = len(rets) == 1 and norm(rets[0].value) in (f"self._start <= {it} < self._end", f"{it} >= self._start and {it} < self._end",
                                                      f"{it} in range(self._start, self._end)")
